@@ -4,7 +4,8 @@ From Coq Require Import List ZArith Lia Bool.
 Import ListNotations.
 Open Scope Z_scope.
 
-Inductive op := AddRef | DecRef.      (* Close = DecRef *)
+Inductive op := AddRef | DecRef | Use.      (* Close = DecRef; Use = any reader holding a reference:
+   a query, a stored-field visit, a merge taking the segment as input - successful or failing *)
 
 Record st := { refs : Z; mapped : bool; releases : nat }.
 
@@ -17,6 +18,7 @@ Definition step (s : st) (o : op) : st :=
       let r := refs s - 1 in
       if r =? 0 then {| refs := r; mapped := false; releases := S (releases s) |}   (* closeActual *)
       else {| refs := r; mapped := mapped s; releases := releases s |}
+  | Use => s
   end.
 
 Definition run (s : st) (ops : list op) : st := fold_left step ops s.
@@ -27,13 +29,14 @@ Fixpoint count (r : Z) (ops : list op) : Z :=
   | [] => r
   | AddRef :: t => count (r + 1) t
   | DecRef :: t => count (r - 1) t
+  | Use :: t => count r t
   end.
 
 (* "the count stays positive until the end": every proper prefix leaves refs > 0 *)
 Fixpoint positive_until_end (r : Z) (ops : list op) : Prop :=
   match ops with
   | [] => True
-  | o :: t => let r' := match o with AddRef => r + 1 | DecRef => r - 1 end in
+  | o :: t => let r' := match o with AddRef => r + 1 | DecRef => r - 1 | Use => r end in
               (t <> [] -> 0 < r') /\ positive_until_end r' t
   end.
 
@@ -44,6 +47,7 @@ Proof.
   intros (Hr & Hm & Hz) Hpos. destruct o; cbn in *.
   - repeat split; auto; lia.
   - destruct (refs s - 1 =? 0) eqn:E; cbn in *; [lia|]. repeat split; auto.
+  - repeat split; auto.
 Qed.
 
 (* C20: along any balanced history whose count stays positive until the end, the segment is mapped
@@ -55,8 +59,8 @@ Proof.
   induction ops as [|o t IH]; intros s HI Hp Hc.
   - cbn in Hc. destruct HI; lia.
   - cbn [positive_until_end] in Hp. destruct Hp as [Hp1 Hp2].
-    assert (Hrefs: refs (step s o) = match o with AddRef => refs s + 1 | DecRef => refs s - 1 end).
-    { destruct o; cbn; [reflexivity|]. destruct (refs s - 1 =? 0); reflexivity. }
+    assert (Hrefs: refs (step s o) = match o with AddRef => refs s + 1 | DecRef => refs s - 1 | Use => refs s end).
+    { destruct o; cbn; [reflexivity| |reflexivity]. destruct (refs s - 1 =? 0); reflexivity. }
     assert (Hc': count (refs (step s o)) t = 0).
     { rewrite Hrefs. destruct o; exact Hc. }
     destruct t as [|o2 t2].
@@ -64,7 +68,7 @@ Proof.
       cbn in Hc'. split.
       * intros pre post He Hne. destruct pre as [|p pre]; [exact HI|].
         cbn in He. injection He as -> He. destruct pre; [|discriminate]. cbn in He. subst post. congruence.
-      * cbn [run fold_left]. destruct o; cbn in *; [destruct HI; lia|].
+      * cbn [run fold_left]. destruct o; cbn in *; [destruct HI; lia| |destruct HI; lia].
         destruct HI as (Hr & Hm & Hz). rewrite Hrefs in Hc'.
         assert (refs s - 1 =? 0 = true) as -> by lia. cbn. split; [reflexivity|]. now rewrite Hz.
     + assert (HI': Inv (step s o)).
@@ -77,11 +81,25 @@ Proof.
 Qed.
 
 (* non-vacuity: AddRef, DecRef, AddRef, DecRef, Close *)
-Example c20_example : let ops := [AddRef; DecRef; AddRef; DecRef; DecRef] in
+Example c20_example : let ops := [AddRef; Use; DecRef; AddRef; Use; DecRef; DecRef] in
   Inv init /\ positive_until_end (refs init) ops /\ count (refs init) ops = 0.
 Proof.
   unfold Inv, init. cbn [refs mapped releases positive_until_end count].
   repeat split; try reflexivity; try (intros _; reflexivity); try (intros; contradiction).
 Qed.
 
+(* why the atomicity of DecRef (decrement and zero test in one critical section, tie/RefTie.v) matters:
+   if the decrement and the test are separate steps, two holders dropping the last two references
+   can both observe zero and the segment is released twice *)
+Inductive op2 := Dec2 | Test2.
+Definition step2 (s : st) (o : op2) : st :=
+  match o with
+  | Dec2 => {| refs := refs s - 1; mapped := mapped s; releases := releases s |}
+  | Test2 => if refs s =? 0 then {| refs := refs s; mapped := false; releases := S (releases s) |} else s
+  end.
+Theorem C20_split_decref_refuted :
+  exists sched, releases (fold_left step2 sched (step init AddRef)) = 2%nat.
+Proof. exists [Dec2; Dec2; Test2; Test2]. reflexivity. Qed.
+
 Print Assumptions C20_refcount.
+Print Assumptions C20_split_decref_refuted.
